@@ -9,14 +9,14 @@ pub fn gen(prop: &str, tier: &str, seed: u64, out: &mut Vec<String>) {
         // direct load / save / sync on every outboard kind, every node id of the tree and a few beyond it
         "STORE" => {
             for bs in 0u32..=if t { 4 } else { 3 } {
-                for size in size_classes(bs, if t { 12 } else { 6 }) {
+                for size in size_classes(bs, if t { 9 } else { 6 }) {
                     let chunks = (size + 1023) / 1024;
                     for kind in crate::gen2::SINKS {
                         for fl in ["sync", "fsm"] {
                             let ids = 2 * chunks + 4;
                             for n in 0..ids {
                                 // small trees completely, larger ones sampled
-                                if ids > 24 && !r.chance(if t { 12 } else { 5 }, ids.min(60)) {
+                                if ids > 24 && !r.chance(if t { 8 } else { 5 }, ids.min(60)) {
                                     continue;
                                 }
                                 out.push(format!("store {fl} {kind} {size} {bs} {} {n}", r.below(1 << 20)));
